@@ -11,6 +11,8 @@ ALLOWED_AXIOMS = {'propext', 'Classical.choice', 'Quot.sound'}
 FORBIDDEN = re.compile(r'\b(sorry|admit|native_decide|bv_decide|implemented_by|unsafe)\b|^axiom\s|maxHeartbeats\s+0')
 DRIVER_BIN = os.path.join(LEAN, '.lake', 'build', 'bin', 'kpdriver')
 HARNESS_BIN = os.path.join(CACHE, 'target', 'debug', 'kpharness')
+# the same harness linked against the library without its `_merge` feature (ops written '@plain <op>' in props.py)
+HARNESS_BIN_PLAIN = os.path.join(CACHE, 'target-plain', 'debug', 'kpharness')
 
 ENV = dict(os.environ)
 ENV.update({'CARGO_NET_OFFLINE': 'true', 'CARGO_TERM_COLOR': 'never'})
@@ -147,7 +149,11 @@ def harness_build():
         if not os.path.exists(lock_dst) or open(lock_src, 'rb').read() != open(lock_dst, 'rb').read():
             shutil.copyfile(lock_src, lock_dst)
     rc, out = run(['cargo', 'build', '--offline'], cwd=HARNESS, timeout=3600)
-    return rc == 0, out[-6000:]
+    if rc != 0:
+        return False, out[-6000:]
+    rc2, out2 = run(['cargo', 'build', '--offline', '--no-default-features', '--target-dir', os.path.join(CACHE, 'target-plain')],
+                    cwd=HARNESS, timeout=3600)
+    return rc2 == 0, (out + out2)[-6000:]
 
 
 # ---------------------------------------------------------------- cases
@@ -231,8 +237,11 @@ def run_ops(pid, spec, tier, seed, workdir, extra_harness_args=None):
                 if p.returncode != 0:
                     raise RuntimeError('harness corpus run failed: %s\n%s' % (line, p.stderr.decode()[-2000:]))
         for op in spec['ops']:
+            hbin = HARNESS_BIN
+            if op.startswith('@plain '):
+                hbin, op = HARNESS_BIN_PLAIN, op[len('@plain '):]
             args = op.split() + ['--seed', str(seed), '--tier', tier] + (extra_harness_args or [])
-            p = subprocess.run([HARNESS_BIN] + args, stdout=cf, stderr=subprocess.PIPE, env=ENV,
+            p = subprocess.run([hbin] + args, stdout=cf, stderr=subprocess.PIPE, env=ENV,
                                timeout=spec.get('timeout', 3000))
             if p.returncode == 3:
                 raise Hang(op, args, p.stderr.decode()[-600:].strip())
@@ -447,7 +456,7 @@ def replay(path):
         ok, out = harness_build()
     args = case.get('replay_args')
     if args:
-        p = subprocess.run([HARNESS_BIN] + args, stdout=subprocess.PIPE, env=ENV)
+        p = subprocess.run([HARNESS_BIN_PLAIN if case.get('library_features') == 'without-_merge' else HARNESS_BIN] + args, stdout=subprocess.PIPE, env=ENV)
         lines = p.stdout.decode().splitlines()
         want = case.get('n')
         for l in lines:
